@@ -49,6 +49,9 @@ type ByteSlice struct {
 	Nil  bool
 	T    *Term
 	Back *Ptr // when the slice aliases a [N]byte variable: h[:]
+	// Resliced: obtained by x[lo:hi] from another opaque []byte, i.e. it shares that slice's
+	// backing array (possibly with spare capacity). Appending to it may write through.
+	Resliced bool
 }
 
 type ByteArr struct {
